@@ -119,7 +119,7 @@ type Resolver struct {
 	F       *Func
 	defs    map[types.Object][]defSite
 	rdCache map[*ast.Ident]*defSite
-	active  map[types.Object]bool
+	active  map[ast.Node]bool
 	depth   int
 }
 
@@ -270,14 +270,6 @@ func (r *Resolver) Val(e ast.Expr) *V {
 			if o.IsField() {
 				return &V{Kind: "var", Name: x.Name, Obj: o, Node: e}
 			}
-			if r.active == nil {
-				r.active = map[types.Object]bool{}
-			}
-			if r.active[o] {
-				return &V{Kind: "var", Name: x.Name, Obj: o, Node: e} // loop-carried / self-referential definition
-			}
-			r.active[o] = true
-			defer delete(r.active, o)
 			if d, ok := r.SingleDef(o); ok && d.kind == "assign" && d.rhs != nil {
 				if v := r.valOfDef(d, e); v != nil {
 					return v
@@ -529,6 +521,15 @@ func (r *Resolver) valOfDef(d defSite, e ast.Expr) *V {
 	if d.kind != "assign" || d.rhs == nil {
 		return nil
 	}
+	// a definition that (transitively) refers to itself — x = append(x, ...) in a loop — is not unfolded
+	if r.active == nil {
+		r.active = map[ast.Node]bool{}
+	}
+	if r.active[d.node] {
+		return nil
+	}
+	r.active[d.node] = true
+	defer delete(r.active, d.node)
 	info := r.F.Info()
 	if d.idx < 0 {
 		return r.Val(d.rhs)
